@@ -1,0 +1,384 @@
+//go:build verif
+
+// Package verifhook provides observation and fault-injection points for the
+// external verification harness. Every behaviour is armed by an environment
+// variable (or, in-process, by the Set* functions); an unarmed hook costs one
+// atomic load.
+package verifhook
+
+import (
+	"fmt"
+	"math"
+	"os"
+	"runtime"
+	"strconv"
+	"strings"
+	"sync"
+	"sync/atomic"
+	"syscall"
+	"time"
+	"unsafe"
+)
+
+const Enabled = true
+
+var (
+	initOnce sync.Once
+	armed    int32 // 1 when any At behaviour is armed
+
+	role      string
+	traceFile *os.File
+	traceSeq  int64
+
+	crashPoint string
+	crashHit   int64
+	sigPoint   string
+	sigHit     int64
+	sigNum     syscall.Signal
+	cancelled  int32
+
+	schedDir  string
+	schedOut  *os.File
+	schedIn   *os.File
+	schedMu   sync.Mutex
+	schedSkip map[string]bool
+
+	delays map[string]time.Duration
+
+	hitMu sync.Mutex
+	hits  map[string]int64
+
+	callback atomic.Value // func(point string, hit int64)
+
+	jitterSeed  uint64
+	jitterOn    int32
+	workerMu    sync.Mutex
+	arrivals    []string
+	parSections int64
+	maxWorkers  int64
+
+	poisonOn   int32
+	discardMu  sync.Mutex
+	discarded  map[uintptr]string
+	keepAlive  []interface{}
+	doubleDisc []string
+)
+
+func setup() {
+	role = os.Getenv("VERIF_ROLE")
+	if role == "" {
+		role = strconv.Itoa(os.Getpid())
+	}
+	hits = make(map[string]int64)
+	if p := os.Getenv("VERIF_TRACE"); p != "" {
+		if f, err := os.OpenFile(p, os.O_WRONLY|os.O_APPEND|os.O_CREATE, 0644); err == nil {
+			traceFile = f
+			atomic.StoreInt32(&armed, 1)
+		}
+	}
+	if s := os.Getenv("VERIF_CRASH_AT"); s != "" {
+		crashPoint, crashHit = splitHit(s)
+		atomic.StoreInt32(&armed, 1)
+	}
+	if s := os.Getenv("VERIF_SIGNAL_AT"); s != "" {
+		sigNum = syscall.SIGINT
+		if i := strings.LastIndex(s, ":"); i >= 0 {
+			switch strings.ToUpper(s[i+1:]) {
+			case "TERM", "SIGTERM":
+				sigNum = syscall.SIGTERM
+			case "QUIT", "SIGQUIT":
+				sigNum = syscall.SIGQUIT
+			case "HUP", "SIGHUP":
+				sigNum = syscall.SIGHUP
+			}
+			s = s[:i]
+		}
+		sigPoint, sigHit = splitHit(s)
+		atomic.StoreInt32(&armed, 1)
+	}
+	if s := os.Getenv("VERIF_DELAY"); s != "" {
+		delays = make(map[string]time.Duration)
+		for _, kv := range strings.Split(s, ",") {
+			if i := strings.Index(kv, "="); i > 0 {
+				if f, err := strconv.ParseFloat(kv[i+1:], 64); err == nil {
+					delays[kv[:i]] = time.Duration(f * float64(time.Millisecond))
+				}
+			}
+		}
+		atomic.StoreInt32(&armed, 1)
+	}
+	if d := os.Getenv("VERIF_SCHED"); d != "" {
+		// events FIFO: <dir>/events ; go FIFO: <dir>/go.<role>
+		out, err1 := os.OpenFile(d+"/events", os.O_WRONLY, 0)
+		in, err2 := os.OpenFile(d+"/go."+role, os.O_RDONLY, 0)
+		if err1 == nil && err2 == nil {
+			schedDir, schedOut, schedIn = d, out, in
+			schedSkip = make(map[string]bool)
+			for _, p := range strings.Split(os.Getenv("VERIF_SCHED_SKIP"), ",") {
+				if p != "" {
+					schedSkip[p] = true
+				}
+			}
+			atomic.StoreInt32(&armed, 1)
+		}
+	}
+	if s := os.Getenv("VERIF_JITTER"); s != "" {
+		if v, err := strconv.ParseUint(s, 10, 64); err == nil {
+			jitterSeed = v
+			atomic.StoreInt32(&jitterOn, 1)
+		}
+	}
+	if os.Getenv("VERIF_POISON") == "1" {
+		SetPoison(true)
+	}
+}
+
+func splitHit(s string) (string, int64) {
+	if i := strings.LastIndex(s, "#"); i >= 0 {
+		if n, err := strconv.ParseInt(s[i+1:], 10, 64); err == nil {
+			return s[:i], n
+		}
+	}
+	return s, 1
+}
+
+// At marks a named point of the production code.
+func At(point string, detail string) {
+	initOnce.Do(setup)
+	cb, _ := callback.Load().(func(string, int64))
+	if atomic.LoadInt32(&armed) == 0 && cb == nil {
+		return
+	}
+	hitMu.Lock()
+	hits[point]++
+	n := hits[point]
+	hitMu.Unlock()
+
+	if traceFile != nil {
+		seq := atomic.AddInt64(&traceSeq, 1)
+		line := fmt.Sprintf("%d %s %d %d %s#%d %s\n", os.Getpid(), role, seq, monotonic(), point, n, strings.ReplaceAll(detail, "\n", " "))
+		_, _ = traceFile.Write([]byte(line))
+	}
+	if cb != nil {
+		cb(point, n)
+	}
+	if d, ok := delays[point]; ok {
+		time.Sleep(d)
+	}
+	if crashPoint != "" && crashPoint == point && crashHit == n {
+		_ = syscall.Kill(os.Getpid(), syscall.SIGKILL)
+		for {
+			time.Sleep(time.Second)
+		}
+	}
+	if sigPoint != "" && sigPoint == point && sigHit == n {
+		_ = syscall.Kill(os.Getpid(), sigNum)
+		for i := 0; i < 5000 && atomic.LoadInt32(&cancelled) == 0; i++ {
+			time.Sleep(time.Millisecond)
+		}
+	}
+	if schedOut != nil && !schedSkip[point] {
+		schedMu.Lock()
+		_, _ = schedOut.Write([]byte(fmt.Sprintf("%s %s#%d %s\n", role, point, n, strings.ReplaceAll(detail, "\n", " "))))
+		buf := make([]byte, 1)
+		_, _ = schedIn.Read(buf)
+		schedMu.Unlock()
+	}
+}
+
+func monotonic() int64 {
+	var ts syscall.Timespec
+	// CLOCK_MONOTONIC = 1: one clock shared by every process of the machine
+	_, _, _ = syscall.Syscall(syscall.SYS_CLOCK_GETTIME, 1, uintptr(unsafe.Pointer(&ts)), 0)
+	return ts.Sec*1e9 + ts.Nsec
+}
+
+// Cancelled is called by the CLI signal goroutine after it cancelled the context.
+func Cancelled() {
+	atomic.StoreInt32(&cancelled, 1)
+}
+
+// SetCallback installs an in-process observer that runs at every At point.
+func SetCallback(fn func(point string, hit int64)) {
+	initOnce.Do(setup)
+	if fn == nil {
+		callback.Store((func(string, int64))(nil))
+		return
+	}
+	callback.Store(fn)
+}
+
+// ResetHits clears the per-point hit counters (in-process harness only).
+func ResetHits() {
+	initOnce.Do(setup)
+	hitMu.Lock()
+	hits = make(map[string]int64)
+	hitMu.Unlock()
+}
+
+func mix(x uint64) uint64 {
+	x += 0x9e3779b97f4a7c15
+	x = (x ^ (x >> 30)) * 0xbf58476d1ce4e5b9
+	x = (x ^ (x >> 27)) * 0x94d049bb133111eb
+	return x ^ (x >> 31)
+}
+
+var workerHit uint64
+
+// Worker is called at the start of every worker goroutine (and may be called
+// inside its loop); it perturbs scheduling when jitter is on and records which
+// workers ran.
+func Worker(kind string, thIdx int, n int) {
+	initOnce.Do(setup)
+	if n > 1 {
+		if thIdx == 0 {
+			atomic.AddInt64(&parSections, 1)
+		}
+		for {
+			m := atomic.LoadInt64(&maxWorkers)
+			if int64(n) <= m || atomic.CompareAndSwapInt64(&maxWorkers, m, int64(n)) {
+				break
+			}
+		}
+		if traceFile != nil {
+			At("worker."+kind, strconv.Itoa(thIdx)+"/"+strconv.Itoa(n))
+		}
+	}
+	if atomic.LoadInt32(&jitterOn) == 0 {
+		return
+	}
+	h := atomic.AddUint64(&workerHit, 1)
+	r := mix(jitterSeed ^ mix(uint64(thIdx)+uint64(len(kind))<<8) ^ mix(h))
+	switch r % 4 {
+	case 0:
+		runtime.Gosched()
+	case 1:
+		time.Sleep(time.Duration(r>>8%200) * time.Microsecond)
+	}
+	if n > 1 {
+		workerMu.Lock()
+		if len(arrivals) < 4096 {
+			arrivals = append(arrivals, kind+":"+strconv.Itoa(thIdx))
+		}
+		workerMu.Unlock()
+	}
+}
+
+// SetJitter switches scheduling jitter on (seed != 0) or off in-process.
+func SetJitter(seed uint64) {
+	initOnce.Do(setup)
+	jitterSeed = seed
+	if seed != 0 {
+		atomic.StoreInt32(&jitterOn, 1)
+	} else {
+		atomic.StoreInt32(&jitterOn, 0)
+	}
+}
+
+type WorkerStats struct {
+	ParallelSections int64
+	MaxWorkers       int64
+	Arrivals         []string
+}
+
+func TakeWorkerStats() WorkerStats {
+	workerMu.Lock()
+	defer workerMu.Unlock()
+	s := WorkerStats{ParallelSections: atomic.SwapInt64(&parSections, 0), MaxWorkers: atomic.SwapInt64(&maxWorkers, 0), Arrivals: arrivals}
+	arrivals = nil
+	return s
+}
+
+// ---- poison-on-discard -----------------------------------------------------
+
+const PoisonString = "\x00⟦DISCARDED⟧"
+const PoisonInt = math.MinInt64 + 0x5ca1ab1e
+
+var PoisonFloat = math.Float64frombits(0x7ff8000005ca1ab1)
+var PoisonTime = time.Date(9999, 12, 31, 23, 59, 59, 0x5ca1ab1, time.UTC)
+
+func SetPoison(on bool) {
+	discardMu.Lock()
+	if discarded == nil {
+		discarded = make(map[uintptr]string)
+	}
+	discardMu.Unlock()
+	if on {
+		atomic.StoreInt32(&poisonOn, 1)
+	} else {
+		atomic.StoreInt32(&poisonOn, 0)
+	}
+}
+
+func ptrOf(p interface{}) uintptr {
+	type eface struct {
+		typ, data unsafe.Pointer
+	}
+	return uintptr((*eface)(unsafe.Pointer(&p)).data)
+}
+
+// Discard registers p as discarded. It returns true when the caller must not
+// recycle the object (poison mode); the caller is expected to have overwritten
+// the payload through its own typed setter before or after (value.Discard does).
+func Discard(p interface{}) bool {
+	initOnce.Do(setup)
+	if atomic.LoadInt32(&poisonOn) == 0 {
+		return false
+	}
+	var site string
+	if pc, file, line, ok := runtime.Caller(2); ok {
+		fn := runtime.FuncForPC(pc)
+		name := ""
+		if fn != nil {
+			name = fn.Name()
+			if i := strings.LastIndex(name, "/"); i >= 0 {
+				name = name[i+1:]
+			}
+		}
+		if i := strings.LastIndex(file, "/"); i >= 0 {
+			file = file[i+1:]
+		}
+		site = fmt.Sprintf("%s:%d(%s)", file, line, name)
+	}
+	k := ptrOf(p)
+	discardMu.Lock()
+	if prev, ok := discarded[k]; ok {
+		if len(doubleDisc) < 64 {
+			doubleDisc = append(doubleDisc, prev+" then "+site)
+		}
+	} else {
+		discarded[k] = site
+		keepAlive = append(keepAlive, p) // never reused: the address stays unique
+	}
+	discardMu.Unlock()
+	return true
+}
+
+// Discarded reports whether p was handed to Discard, and where.
+func Discarded(p interface{}) (string, bool) {
+	if atomic.LoadInt32(&poisonOn) == 0 {
+		return "", false
+	}
+	k := ptrOf(p)
+	discardMu.Lock()
+	s, ok := discarded[k]
+	discardMu.Unlock()
+	return s, ok
+}
+
+type DiscardStats struct {
+	Discarded      int
+	DoubleDiscards []string
+}
+
+func TakeDiscardStats(reset bool) DiscardStats {
+	discardMu.Lock()
+	defer discardMu.Unlock()
+	s := DiscardStats{Discarded: len(discarded), DoubleDiscards: doubleDisc}
+	if reset {
+		discarded = make(map[uintptr]string)
+		keepAlive = nil
+		doubleDisc = nil
+	}
+	return s
+}
